@@ -13,7 +13,7 @@ RULE = (
     "monotonicity of the trace; (group) every ordered group of 1..2 (thorough 3) members from {never fails, fails at a k line, errors "
     "under a fail policy, stops early, run-mode no-run} x files incl. the empty file x six run methods: results_manager.is_valid(name), "
     "the run manifest's all_valid and the member manifests' valid must equal the conjunction of the members' CsvPath.is_valid; "
-    "non-trivial = some line failed the file / some member is invalid; state = (validity, stopped, record)"
+    "(reuse) a clean group run on the SAME CsvPaths instance right after a run in which fail()/fail_all()/fail_and_stop() executed, for every pair of run methods, must start valid; non-trivial = some line failed the file / some member is invalid; state = (validity, stopped, record)"
 )
 BOUNDS = {
     "quick": "16 fail contexts + 8 policy subsets x 6 error programs x 156 files of <=3 records; 5 singles + 20 pairs x 8 files x 6 methods",
@@ -91,6 +91,12 @@ def cases(tier, seed):
         for name in ERRPROGS:
             for pol in POLICIES:
                 yield {"kind": "err", "prog": name, "file": pat, "policy": pol}
+    # "a run starts valid": a second run on the SAME CsvPaths instance after a run in which fail()/fail_all()/fail_and_stop() executed
+    for first in ("failall", "failk", "fas"):
+        for m1 in groups.METHODS:
+            for m2 in groups.METHODS:
+                for f in ("k", "nk", "kn"):
+                    yield {"kind": "reuse", "first": first, "m1": m1, "m2": m2, "file": f}
     gfiles = GFILES[:8] if tier == "quick" else GFILES
     sizes = (1, 2) if tier == "quick" else (1, 2, 3)
     for k in sizes:
@@ -101,7 +107,7 @@ def cases(tier, seed):
 
 
 def sample(case):
-    if case["kind"] == "group":
+    if case["kind"] in ("group", "reuse"):
         return case
     comps = _comps(case)
     return {"file": case["file"], "policy": case["policy"], "match": refinterp.render_match(comps)}
@@ -154,9 +160,43 @@ def run_case(case):
         states = [run.h64((case["prog"], tuple(pol), t.get("i"), it.valid)) for t in it.trace] + [run.h64((it.valid, it.stopped, len(rows)))]
         return {"viol": viol, "states": states, "transitions": len(it.trace), "nontrivial": not it.valid, "outcome": (it.valid, tuple(it.vars.get("v") or [])), "fingerprint": run.h64({k: v for k, v in o.items() if k != "stdout"})}
 
-    # group aggregation
     from mcx import groups
     from models import refarchive
+
+    if kind == "reuse":
+        first = {"failall": '~ id: fa ~ $[*][#0 == "k" -> fail_all()]', "failk": GM["failk"], "fas": '~ id: fs ~ $[*][#0 == "k" -> fail_and_stop()]'}[case["first"]]
+        pat = case["file"]
+        rows = [list(ROWS[ch]) + [str(i)] for i, ch in enumerate(pat)]
+        cp = groups.fresh(policy="collect")
+        src = sandbox.write_csv(rows)
+        cp.file_manager.add_named_file(name="d", path=src)
+        cp.paths_manager.add_named_paths(name="g1", paths=[first, GM["ok"]])
+        cp.paths_manager.add_named_paths(name="g2", paths=[GM["ok"], GM["stops"]])
+        cstr = f"reuse first-run={case['first']} via {case['m1']} then clean group via {case['m2']} file={pat!r}"
+        l1, e1 = groups.run_method(cp, case["m1"], name="g1")
+        if e1 is not None:
+            bad("first run raised", f"{type(e1).__name__}: {str(e1)[:100]}", None, cstr)
+        l2, e2 = groups.run_method(cp, case["m2"], name="g2")
+        if e2 is not None:
+            bad("second run raised", f"{type(e2).__name__}: {str(e2)[:100]}", None, cstr)
+        rs = groups.results_of(cp, "g2")
+        verdicts = [r.csvpath.is_valid for r in rs]
+        if verdicts != [True] * len(rs) or len(rs) != 2:
+            bad("a run on a reused instance did not start valid (members of a clean group are invalid)", verdicts, [True, True], cstr)
+        try:
+            agg = cp.results_manager.is_valid("g2")
+        except Exception as e:  # noqa: BLE001
+            agg = f"EXC {type(e).__name__}"
+        if agg is not True:
+            bad("results_manager.is_valid of the clean second run", agg, True, cstr)
+        rd = groups.run_dirs("g2")
+        if rd:
+            man = refarchive.load_json(os.path.join(rd[-1], "manifest.json"))
+            if man.get("all_valid") is not True:
+                bad("run manifest all_valid of the clean second run", man.get("all_valid"), True, cstr)
+        return {"viol": viol, "states": [run.h64((case["first"], case["m1"], case["m2"], pat))], "transitions": 2 * len(rows), "nontrivial": "k" in pat, "outcome": run.h64((verdicts, agg)), "fingerprint": run.h64((cstr, [v["diverge"] for v in viol]))}
+
+    # group aggregation
 
     grp, pat, method = case["group"], case["file"], case["method"]
     rows = [list(ROWS[ch]) + ([str(i)] if ch != "b" else []) for i, ch in enumerate(pat)]
